@@ -358,9 +358,52 @@ def r14_2_index_kinds(ctx, rule: str = 'R14.2', rule_enum: str = 'R06.1', rule_s
                 if v in gk:
                     kinds[v] = gk[v]
 
+        parents_: Dict[int, ast.AST] = {}
+        for n_ in ast.walk(f.node):
+            for c_ in ast.iter_child_nodes(n_):
+                parents_[id(c_)] = n_
+        once_ = _once_assigned(f)
+
+        def iter_kind(it: ast.AST) -> Optional[str]:
+            """kind of the values an iteration over `it` yields"""
+            if isinstance(it, ast.Name) and it.id == sc.idx:
+                return TID
+            if isinstance(it, ast.Call) and ast.unparse(it.func) in ('range', 'xrange', 'np.arange') and len(it.args) == 1:
+                a_ = it.args[0]
+                if isinstance(a_, ast.Name) and a_.id in once_:
+                    a_ = once_[a_.id]
+                if _is_len_of(a_, sc.idx):
+                    return POS
+            return None
+
+        def local_kind(name_node: ast.Name) -> Optional[str]:
+            """a variable of an enclosing comprehension or plain loop that runs over the selection (train ids) or over its
+            positions"""
+            cur = name_node
+            while id(cur) in parents_:
+                cur = parents_[id(cur)]
+                gens = []
+                if isinstance(cur, (ast.ListComp, ast.SetComp, ast.GeneratorExp, ast.DictComp)):
+                    gens = [(g.target, g.iter) for g in cur.generators]
+                elif isinstance(cur, ast.For):
+                    gens = [(cur.target, cur.iter)]
+                for tg_, it_ in gens:
+                    if isinstance(tg_, ast.Name) and tg_.id == name_node.id:
+                        return iter_kind(it_)
+                    if isinstance(tg_, ast.Tuple) and len(tg_.elts) == 2 and all(isinstance(e_, ast.Name) for e_ in tg_.elts) \
+                            and isinstance(it_, ast.Call) and ast.unparse(it_.func) == 'enumerate' and len(it_.args) == 1 \
+                            and isinstance(it_.args[0], ast.Name) and it_.args[0].id == sc.idx:
+                        if tg_.elts[0].id == name_node.id:
+                            return POS
+                        if tg_.elts[1].id == name_node.id:
+                            return TID
+                    if any(isinstance(x_, ast.Name) and x_.id == name_node.id for x_ in ast.walk(tg_)):
+                        return None
+            return None
+
         def kind_of(e: ast.AST) -> Optional[str]:
             if isinstance(e, ast.Name):
-                return kinds.get(e.id)
+                return kinds.get(e.id) or local_kind(e)
             if isinstance(e, ast.Subscript):
                 # idx[POS] -> TID
                 if isinstance(e.value, ast.Name) and e.value.id == sc.idx:
